@@ -4253,6 +4253,12 @@ class Macro:
                 MacroArgumentKind.MATCH: ("regex", "end_expr", "concat_expr", "string_const", "string_case_const", "binary_regex", "binary_string_const"),
                 MacroArgumentKind.INTEXPR: ("string_const", "bool_const", "number_const", "char_const", "identifier_const", *all_sum_expr_nodes)
             }[argspec.kind]
+            if value.data == "identifier_const" and argspec.kind in (MacroArgumentKind.MATCH, MacroArgumentKind.INTEXPR):
+                # Forwarding one of the caller's own match/expr arguments: bind what it stands for, in the caller's scope
+                try:
+                    value = parse_ctx._lookup_named_entity(MacroArgumentKind.EXPR, value.children[0])
+                except UndefinedReferenceError:
+                    pass
             if value.data not in allowed_types:
                 raise IllegalParseTree("Invalid argument type for argument " + argspec.name, value)
             if argspec.should_early_bind():
